@@ -39,7 +39,7 @@ def gen_cases(tier, seed):
                         keyreps = keyreps[:1]
                     for kname, krep in keyreps:
                         cfgv = list(cl.DEFAULT_CFG)
-                        cfgv[cl.ALGO], cfgv[cl.ALGO_PRM] = algo, rnd.choice([-1, 5, 0x1FF])
+                        cfgv[cl.ALGO], cfgv[cl.ALGO_PRM] = algo, rnd.choice([-1, 0, 0, 5, 0x1FF])   # 0: a configured parameter that is falsy
                         cfgv[cl.EX_NEG] = cfgv[cl.EX_INV] = cfgv[cl.EX_UNX] = ex
                         params = rnd.choice([b'', b'\x01\x02'])
                         yield cl.H(cfgv).call(5, [level], [params], srep + krep).case(5000, 'unlock %s/%s' % (sname, kname))
@@ -93,6 +93,8 @@ def oracle(c, r):
     if aseed != seed or lvl not in (-1, level):
         return ('algo-args', 'algorithm got seed %s level %r; received seed %s requested level %d' % (aseed.hex(), lvl, seed.hex(), level))
     kind = cfgv[cl.ALGO]
+    if kind >= 2 and prm != cfgv[cl.ALGO_PRM]:
+        return ('algo-params', 'algorithm got params %r, configured security_algo_params is %r (-1 = None)' % (prm, cfgv[cl.ALGO_PRM]))
     pb = 0 if cfgv[cl.ALGO_PRM] < 0 else cfgv[cl.ALGO_PRM] & 0xFF
     key = bytes(reversed(seed)) + (b'' if kind == 1 else (bytes([pb]) if kind == 2 else bytes([level & 0xFF, pb])))
     if len(sent) != 2 or sent[1] != bytes([0x27, 2 * k]) + key:
